@@ -13,9 +13,12 @@ From Coq Require Import ZifyBool ZifyN ZifyNat.
 Section WithNum.
 Context {NumO : NumOps}.
 
-Lemma lex_space f p rest w acc :
-  tokenize_loopS (S f) (AS p (32%N :: rest) w) acc = tokenize_loopS f (AS (p + 1) rest 1) acc.
-Proof. reflexivity. Qed.
+(* the four whitespace characters: space, tab, line feed, carriage return *)
+Definition wsc (c : N) : Prop := c = 32%N \/ c = 9%N \/ c = 10%N \/ c = 13%N.
+
+Lemma lex_space c f p rest w acc : wsc c ->
+  tokenize_loopS (S f) (AS p (c :: rest) w) acc = tokenize_loopS f (AS (p + 1) rest 1) acc.
+Proof. intros [->|[->|[->| ->]]]; reflexivity. Qed.
 
 Lemma lex_dot f p rest w acc :
   tokenize_loopS (S f) (AS p (46%N :: rest) w) acc =
@@ -47,27 +50,37 @@ Definition fixed_text (ty : tokType) : option bytes :=
   end.
 
 (* the state after a token: position, remaining input, width of the last rune read *)
-Definition lexed (f : nat) (p : Z) (text rest : bytes) (w : Z) (acc : list token) (ty : tokType) (v : bytes) : Prop :=
+Definition lexed (c : N) (f : nat) (p : Z) (text rest : bytes) (w : Z) (acc : list token) (ty : tokType) (v : bytes) : Prop :=
   exists tok p' k, ttype tok = ty /\ tvalue tok = v /\ p' = p + zlen text /\
-    tokenize_loopS (S f) (AS p (text ++ 32%N :: rest) w) acc = tokenize_loopS f (AS p' (32%N :: rest) k) (tok :: acc).
+    tokenize_loopS (S f) (AS p (text ++ c :: rest) w) acc = tokenize_loopS f (AS p' (c :: rest) k) (tok :: acc).
 
-Lemma lex_fixed ty txt f p rest w acc : fixed_text ty = Some txt -> lexed f p txt rest w acc ty txt.
+Lemma lex_fixed_aux c ty txt f p rest w acc : wsc c -> fixed_text ty = Some txt ->
+  exists tok p' k,
+    tokenize_loopS (S f) (AS p (txt ++ c :: rest) w) acc = tokenize_loopS f (AS p' (c :: rest) k) (tok :: acc) /\
+    ttype tok = ty /\ tvalue tok = txt /\ p' = p + zlen txt.
 Proof.
-  intros H. unfold lexed. destruct ty; cbn [fixed_text] in H; inversion H; subst txt;
-    eexists _, _, _; (split; [|split; [|split]]); [| | |reflexivity| | | |reflexivity| | | |reflexivity| | | |reflexivity
-      | | | |reflexivity| | | |reflexivity| | | |reflexivity| | | |reflexivity| | | |reflexivity| | | |reflexivity
-      | | | |reflexivity| | | |reflexivity| | | |reflexivity| | | |reflexivity| | | |reflexivity| | | |reflexivity
-      | | | |reflexivity| | | |reflexivity| | | |reflexivity| | | |reflexivity| | | |reflexivity| | | |reflexivity
-      | | | |reflexivity| | | |reflexivity]; try reflexivity; unfold zlen; cbn [length str]; cbn; lia.
+  intros Hc H. destruct Hc as [->|[->|[->| ->]]]; destruct ty; cbn [fixed_text] in H; inversion H; subst txt;
+    (eexists _, _, _; split; [reflexivity|]; split; [reflexivity|]; split; [reflexivity|]; unfold zlen; cbn [length str]; cbn; lia).
+Qed.
+
+Lemma lex_fixed c ty txt f p rest w acc : wsc c -> fixed_text ty = Some txt -> lexed c f p txt rest w acc ty txt.
+Proof.
+  intros Hc H. destruct (lex_fixed_aux c ty txt f p rest w acc Hc H) as [tok [p' [k [H1 [H2 [H3 H4]]]]]].
+  exists tok, p', k. auto.
 Qed.
 
 
 (* ---- numbers ---- *)
-Lemma number_loopS_spec : forall ds fuel p rest w, forallb is_digit ds = true -> (length ds < fuel)%nat ->
-  number_loopS fuel (AS p (ds ++ 32%N :: rest) w) = Ok (AS (p + zlen ds) (32%N :: rest) 1).
+Lemma wsc_facts c : wsc c -> N.ltb c 128 = true /\ ((Z.of_N c <? 48) || (57 <? Z.of_N c)) = true.
+Proof. intros [->|[->|[->| ->]]]; split; reflexivity. Qed.
+
+Lemma number_loopS_spec : forall c ds fuel p rest w, wsc c -> forallb is_digit ds = true -> (length ds < fuel)%nat ->
+  number_loopS fuel (AS p (ds ++ c :: rest) w) = Ok (AS (p + zlen ds) (c :: rest) 1).
 Proof.
-  induction ds as [|c ds IH]; intros fuel p rest w Hd Hf.
-  - destruct fuel as [|f]; [cbn in Hf; lia|]. cbn. unfold zlen. cbn. rewrite Z.add_0_r. reflexivity.
+  intros c0 ds. induction ds as [|c ds IH]; intros fuel p rest w Hws Hd Hf.
+  - destruct fuel as [|f]; [cbn in Hf; lia|]. destruct (wsc_facts c0 Hws) as [H1 H2].
+    cbn [number_loopS app]. unfold nextS at 1, peekS. cbn [asuf ap]. rewrite (stepS_ascii c0 _ H1). rewrite H2.
+    unfold zlen. cbn [length snd]. rewrite Z.add_0_r. reflexivity.
   - destruct fuel as [|f]; [cbn in Hf; lia|]. cbn [forallb] in Hd. apply andb_true_iff in Hd as [Hc Hd].
     assert (Hc128 : N.ltb c 128 = true) by (unfold is_digit in Hc; lia).
     cbn [number_loopS app]. unfold nextS at 1. cbn [asuf ap]. rewrite (stepS_ascii c _ Hc128).
@@ -84,9 +97,9 @@ Definition number_text (v : bytes) : bool :=
     else is_digit c && forallb is_digit ds
   end.
 
-Lemma lex_number v f p rest w acc : 0 <= p -> number_text v = true -> lexed f p v rest w acc tNumber v.
+Lemma lex_number sp v f p rest w acc : wsc sp -> 0 <= p -> number_text v = true -> lexed sp f p v rest w acc tNumber v.
 Proof.
-  intros Hp Hn. unfold lexed. destruct v as [|c ds]; [discriminate|].
+  intros Hsp Hp Hn. unfold lexed. destruct v as [|c ds]; [discriminate|].
   assert (Hfirst : (Z.of_N c =? 45) || ((48 <=? Z.of_N c) && (Z.of_N c <=? 57)) = true /\ N.ltb c 128 = true /\
                    forallb is_digit ds = true /\ ident_start (Z.of_N c) = false /\ assoc_Z (Z.of_N c) basic_tokens = None).
   { cbn [number_text] in Hn. destruct (N.eqb_spec c 45) as [->|Hne].
@@ -95,16 +108,16 @@ Proof.
       + rewrite ident_start_ok by lia. unfold is_alpha_Z. lia.
       + rewrite basic_tokens_ok. repeat match goal with |- context [if ?b then _ else _] => destruct b eqn:?; try lia end. reflexivity. }
   destruct Hfirst as [H1 [H2 [H3 [H4 H5]]]].
-  assert (Hloop : tokenize_loopS (S f) (AS p ((c :: ds) ++ 32%N :: rest) w) acc =
-                  tokenize_loopS f (AS (p + zlen (c :: ds)) (32%N :: rest) 1) (Token tNumber (c :: ds) p (zlen (c :: ds)) :: acc)).
+  assert (Hloop : tokenize_loopS (S f) (AS p ((c :: ds) ++ sp :: rest) w) acc =
+                  tokenize_loopS f (AS (p + zlen (c :: ds)) (sp :: rest) 1) (Token tNumber (c :: ds) p (zlen (c :: ds)) :: acc)).
   { cbn [tokenize_loopS app]. unfold nextS at 1. cbn [asuf ap]. rewrite (stepS_ascii c _ H2). rewrite H4, H5, H1.
     unfold consumeNumberS. cbn [ap aw asuf].
-    rewrite (number_loopS_spec ds _ (p + 1) rest 1 H3) by (cbn [length]; rewrite app_length; cbn [length]; lia).
+    rewrite (number_loopS_spec sp ds _ (p + 1) rest 1 Hsp H3) by (cbn [length]; rewrite app_length; cbn [length]; lia).
     cbn [bind ap]. replace (p + 1 - 1) with p by lia. rewrite Z.eqb_refl. unfold sliceS.
-    assert ((0 <=? p) && (p <=? p + 1 + zlen ds) && (p + 1 + zlen ds <=? p + zlen (c :: ds ++ 32%N :: rest)) = true) as ->.
+    assert ((0 <=? p) && (p <=? p + 1 + zlen ds) && (p + 1 + zlen ds <=? p + zlen (c :: ds ++ sp :: rest)) = true) as ->.
     { unfold zlen. cbn [length]. rewrite app_length. cbn [length]. lia. }
     cbn [bind]. replace (Z.to_nat (p + 1 + zlen ds - p)) with (length (c :: ds)) by (unfold zlen; cbn [length]; lia).
-    change (c :: ds ++ 32%N :: rest) with ((c :: ds) ++ 32%N :: rest). rewrite firstn_app_exact.
+    change (c :: ds ++ sp :: rest) with ((c :: ds) ++ sp :: rest). rewrite firstn_app_exact.
     replace (p + 1 + zlen ds) with (p + zlen (c :: ds)) by (unfold zlen; cbn [length]; lia).
     replace (p + zlen (c :: ds) - p) with (zlen (c :: ds)) by lia. reflexivity. }
   eexists _, _, _. split; [|split; [|split; [reflexivity | exact Hloop]]]; reflexivity.
@@ -112,10 +125,12 @@ Qed.
 
 
 (* ---- identifiers, strings, literals followed by a space ---- *)
-Lemma lexed_unquoted name f p rest w acc : 0 <= p -> valid_unquoted name = true ->
-  lexed f p name rest w acc tUnquotedIdentifier name.
+Lemma lexed_unquoted sp name f p rest w acc : wsc sp -> 0 <= p -> valid_unquoted name = true ->
+  lexed sp f p name rest w acc tUnquotedIdentifier name.
 Proof.
-  intros Hp Hv. destruct (lex_unquoted name (32%N :: rest) f p w acc Hv eq_refl Hp) as [k Hk].
+  intros Hsp Hp Hv.
+  assert (Hst : stops (sp :: rest)) by (destruct Hsp as [->|[->|[->| ->]]]; reflexivity).
+  destruct (lex_unquoted name (sp :: rest) f p w acc Hv Hst Hp) as [k Hk].
   eexists _, _, k. split; [|split; [|split; [reflexivity | exact Hk]]]; reflexivity.
 Qed.
 
@@ -125,17 +140,17 @@ Ltac first_char c :=
   let r2 := eval vm_compute in (assoc_Z (Z.of_N c) basic_tokens) in change (assoc_Z (Z.of_N c) basic_tokens) with r2;
   cbn iota.
 
-Lemma lexed_quoted rs f p rest w acc : 0 <= p -> forallb valid_rune rs = true ->
-  lexed f p (marshal_string (string_of_runes rs)) rest w acc tQuotedIdentifier (string_of_runes rs).
+Lemma lexed_quoted sp rs f p rest w acc : 0 <= p -> forallb valid_rune rs = true ->
+  lexed sp f p (marshal_string (string_of_runes rs)) rest w acc tQuotedIdentifier (string_of_runes rs).
 Proof.
   intros Hp Hv. rewrite marshal_string_escape by exact Hv.
-  assert (Hloop : tokenize_loopS (S f) (AS p ((34%N :: json_escape rs ++ [34%N]) ++ 32%N :: rest) w) acc =
-                  tokenize_loopS f (AS (p + zlen (34%N :: json_escape rs ++ [34%N])) (32%N :: rest) 1)
+  assert (Hloop : tokenize_loopS (S f) (AS p ((34%N :: json_escape rs ++ [34%N]) ++ sp :: rest) w) acc =
+                  tokenize_loopS f (AS (p + zlen (34%N :: json_escape rs ++ [34%N])) (sp :: rest) 1)
                     (Token tQuotedIdentifier (string_of_runes rs) p (zlen (string_of_runes rs)) :: acc)).
   { first_char 34%N. cbn -[tokenize_loopS consumeQuotedIdentifierS json_escape].
     unfold consumeQuotedIdentifierS. change 34 with (Z.of_N 34).
     rewrite <- app_assoc. cbn [app].
-    rewrite (consumeUntilS_clean 34 (p + 1) (json_escape rs) (32%N :: rest) 1) by (first [reflexivity | lia | (apply clean_json_escape; exact Hv)]).
+    rewrite (consumeUntilS_clean 34 (p + 1) (json_escape rs) (sp :: rest) 1) by (first [reflexivity | lia | (apply clean_json_escape; exact Hv)]).
     cbn [bind]. rewrite (unquote_escape rs Hv). cbn [bind ap].
     replace (p + 1 - 1) with p by lia.
     replace (p + 1 + zlen (json_escape rs) + 1) with (p + zlen (34%N :: json_escape rs ++ [34%N])) by (unfold zlen; cbn [length]; rewrite app_length; cbn [length]; lia).
@@ -143,34 +158,34 @@ Proof.
   eexists _, _, _. split; [|split; [|split; [reflexivity | exact Hloop]]]; reflexivity.
 Qed.
 
-Lemma lexed_raw x f p rest w acc : 0 <= p -> raw_ok x = true ->
-  lexed f p (39%N :: raw_escape x ++ [39%N]) rest w acc tStringLiteral x.
+Lemma lexed_raw sp x f p rest w acc : 0 <= p -> raw_ok x = true ->
+  lexed sp f p (39%N :: raw_escape x ++ [39%N]) rest w acc tStringLiteral x.
 Proof.
   intros Hp Hok.
-  assert (Hloop : tokenize_loopS (S f) (AS p ((39%N :: raw_escape x ++ [39%N]) ++ 32%N :: rest) w) acc =
-                  tokenize_loopS f (AS (p + zlen (39%N :: raw_escape x ++ [39%N])) (32%N :: rest) 1)
+  assert (Hloop : tokenize_loopS (S f) (AS p ((39%N :: raw_escape x ++ [39%N]) ++ sp :: rest) w) acc =
+                  tokenize_loopS f (AS (p + zlen (39%N :: raw_escape x ++ [39%N])) (sp :: rest) 1)
                     (Token tStringLiteral x (p + 1) (zlen x) :: acc)).
   { first_char 39%N. cbn -[tokenize_loopS consumeRawStringLiteralS raw_escape].
     rewrite <- app_assoc. cbn [app].
     rewrite consumeRawS_scan by lia. rewrite raw_scan_bytes by lia.
     rewrite raw_escape_roundtrip by exact Hok. cbn [bind].
-    replace (p + 1 + zlen (raw_escape x ++ 39%N :: 32%N :: rest) - zlen (32%N :: rest)) with (p + zlen (39%N :: raw_escape x ++ [39%N]))
+    replace (p + 1 + zlen (raw_escape x ++ 39%N :: sp :: rest) - zlen (sp :: rest)) with (p + zlen (39%N :: raw_escape x ++ [39%N]))
       by (unfold zlen; cbn [length]; rewrite !app_length; cbn [length]; lia).
     reflexivity. }
   eexists _, _, _. split; [|split; [|split; [reflexivity | exact Hloop]]]; reflexivity.
 Qed.
 
-Lemma lexed_literal t f p rest w acc : 0 <= p -> paired t = true ->
-  lexed f p (96%N :: lit_escape t ++ [96%N]) rest w acc tJSONLiteral t.
+Lemma lexed_literal sp t f p rest w acc : 0 <= p -> paired t = true ->
+  lexed sp f p (96%N :: lit_escape t ++ [96%N]) rest w acc tJSONLiteral t.
 Proof.
   intros Hp Hok.
-  assert (Hloop : tokenize_loopS (S f) (AS p ((96%N :: lit_escape t ++ [96%N]) ++ 32%N :: rest) w) acc =
-                  tokenize_loopS f (AS (p + zlen (96%N :: lit_escape t ++ [96%N])) (32%N :: rest) 1)
+  assert (Hloop : tokenize_loopS (S f) (AS p ((96%N :: lit_escape t ++ [96%N]) ++ sp :: rest) w) acc =
+                  tokenize_loopS f (AS (p + zlen (96%N :: lit_escape t ++ [96%N])) (sp :: rest) 1)
                     (Token tJSONLiteral t (p + 1) (zlen t) :: acc)).
   { first_char 96%N. cbn -[tokenize_loopS consumeLiteralS lit_escape].
     unfold consumeLiteralS. change 96 with (Z.of_N 96) at 1.
     rewrite <- app_assoc. cbn [app].
-    rewrite (consumeUntilS_clean 96 (p + 1) (lit_escape t) (32%N :: rest) 1) by (first [reflexivity | lia | (apply (lit_escape_clean (length t)); [lia | exact Hok])]).
+    rewrite (consumeUntilS_clean 96 (p + 1) (lit_escape t) (sp :: rest) 1) by (first [reflexivity | lia | (apply (lit_escape_clean (length t)); [lia | exact Hok])]).
     cbn [bind ap]. rewrite lit_unescape.
     replace (p + 1 + zlen (lit_escape t) + 1) with (p + zlen (96%N :: lit_escape t ++ [96%N])) by (unfold zlen; cbn [length]; rewrite app_length; cbn [length]; lia).
     reflexivity. }
@@ -200,11 +215,11 @@ Definition spell_tok (t : token) : bytes :=
   | _ => tvalue t
   end.
 
-Lemma lex_token t f p rest w acc : 0 <= p -> lexable t = true ->
-  lexed f p (spell_tok t) rest w acc (ttype t) (tvalue t).
+Lemma lex_token sp t f p rest w acc : wsc sp -> 0 <= p -> lexable t = true ->
+  lexed sp f p (spell_tok t) rest w acc (ttype t) (tvalue t).
 Proof.
-  intros Hp Hl. unfold lexable, spell_tok in *. destruct (ttype t) eqn:Ety; cbn [fixed_text] in Hl; try discriminate;
-    try (apply bytes_eqb_eq in Hl; rewrite Hl; apply lex_fixed; reflexivity).
+  intros Hsp Hp Hl. unfold lexable, spell_tok in *. destruct (ttype t) eqn:Ety; cbn [fixed_text] in Hl; try discriminate;
+    try (apply bytes_eqb_eq in Hl; rewrite Hl; apply lex_fixed; [exact Hsp | reflexivity]).
   - apply lex_number; assumption.
   - apply lexed_unquoted; assumption.
   - unfold utf8_ok in Hl. apply andb_true_iff in Hl as [H1 H2]. apply bytes_eqb_eq in H2.
@@ -220,39 +235,76 @@ Proof.
   all: destruct (tvalue t); discriminate.
 Qed.
 
-Definition text_of (l : list token) : bytes := concat (map (fun t => spell_tok t ++ [32%N]) l).
+(* ---- whole texts: every token followed by a non-empty run of whitespace ---- *)
+Definition ws_ok (w : bytes) : Prop := w <> [] /\ Forall wsc w.
 
-Lemma text_of_cons t l : text_of (t :: l) = spell_tok t ++ 32%N :: text_of l.
-Proof. unfold text_of. cbn [map concat]. rewrite <- app_assoc. reflexivity. Qed.
+Lemma lex_ws_run : forall ws f p rest k acc, Forall wsc ws -> ws <> [] ->
+  tokenize_loopS (length ws + f) (AS p (ws ++ rest) k) acc = tokenize_loopS f (AS (p + zlen ws) rest 1) acc.
+Proof.
+  induction ws as [|c ws IH]; intros f p rest k acc Hall Hne; [congruence|].
+  inversion Hall as [|? ? Hc Hall']; subst. cbn [length Nat.add app]. rewrite (lex_space c _ _ _ _ _ Hc).
+  destruct ws as [|c2 ws'].
+  - cbn [app length Nat.add]. unfold zlen. cbn [length]. reflexivity.
+  - rewrite (IH f (p + 1) rest 1 acc Hall' ltac:(discriminate)). f_equal. f_equal. unfold zlen. cbn [length]. lia.
+Qed.
+
+(* a text: tokens, each with the whitespace that follows it *)
+Definition text_ws (l : list (token * bytes)) : bytes := concat (map (fun tw => spell_tok (fst tw) ++ snd tw) l).
+
+Lemma text_ws_cons t w l : text_ws ((t, w) :: l) = spell_tok t ++ w ++ text_ws l.
+Proof. unfold text_ws. cbn [map concat fst snd]. rewrite <- app_assoc. reflexivity. Qed.
 
 Definition same_tv (a b : token) : Prop := ttype a = ttype b /\ tvalue a = tvalue b.
 
-Lemma lex_text : forall l f p w acc, Forall (fun t => lexable t = true) l -> 0 <= p -> (2 * length l < f)%nat ->
-  exists out, tokenize_loopS f (AS p (text_of l) w) acc = Ok (rev acc ++ out ++ [Token tEOF [] (p + zlen (text_of l)) 0]) /\
-              Forall2 same_tv out l.
+Definition steps (l : list (token * bytes)) : nat := fold_right (fun tw n => (S (length (snd tw)) + n)%nat) 0%nat l.
+
+Lemma lex_text_ws : forall l f p w acc,
+  Forall (fun tw : token * bytes => lexable (fst tw) = true /\ ws_ok (snd tw)) l -> 0 <= p -> (steps l < f)%nat ->
+  exists out, tokenize_loopS f (AS p (text_ws l) w) acc = Ok (rev acc ++ out ++ [Token tEOF [] (p + zlen (text_ws l)) 0]) /\
+              Forall2 same_tv out (map fst l).
 Proof.
-  induction l as [|t l IH]; intros f p w acc Hl Hp Hf.
-  - destruct f as [|f]; [cbn in Hf; lia|]. exists []. split; [|constructor]. cbn [text_of map concat]. rewrite lex_eof.
+  induction l as [|[t ws] l IH]; intros f p w acc Hl Hp Hf.
+  - destruct f as [|f]; [cbn in Hf; lia|]. exists []. split; [|constructor]. cbn [text_ws map concat]. rewrite lex_eof.
     cbn [rev app]. unfold zlen. cbn [length]. rewrite Z.add_0_r. reflexivity.
-  - inversion Hl as [|? ? Ht Hl']; subst. destruct f as [|[|f]]; try (cbn [length] in Hf; lia).
-    rewrite text_of_cons.
-    destruct (lex_token t (S f) p (text_of l) w acc Hp Ht) as [tok [p' [k [T1 [T2 [Hp' Hloop]]]]]].
-    rewrite Hloop. rewrite lex_space.
-    destruct (IH f (p' + 1) 1 (tok :: acc) Hl' ltac:(pose proof (Zle_0_nat (length (spell_tok t))); unfold zlen in Hp'; lia)
-                 ltac:(cbn [length] in Hf; lia)) as [out [Hout Hsame]].
+  - inversion Hl as [|? ? [Ht [Hne Hws]] Hl']; subst. cbn [fst snd] in *. cbn [steps fold_right snd] in Hf. fold (steps l) in Hf.
+    rewrite text_ws_cons.
+    destruct ws as [|c ws']; [congruence|]. inversion Hws as [|? ? Hc Hws']; subst.
+    assert (Hfuel : exists f', f = S (length (c :: ws') + f') /\ (steps l < f')%nat).
+    { exists (f - S (length (c :: ws')))%nat. cbn [length] in *. split; lia. }
+    destruct Hfuel as [f' [-> Hf']].
+    destruct (lex_token c t (length (c :: ws') + f') p (ws' ++ text_ws l) w acc Hc Hp Ht) as [tok [p' [k [T1 [T2 [Hp' Hloop]]]]]].
+    change ((c :: ws') ++ text_ws l) with (c :: ws' ++ text_ws l). rewrite Hloop.
+    change (c :: ws' ++ text_ws l) with ((c :: ws') ++ text_ws l).
+    rewrite (lex_ws_run (c :: ws') f' p' (text_ws l) k (tok :: acc) Hws ltac:(discriminate)).
+    destruct (IH f' (p' + zlen (c :: ws')) 1 (tok :: acc) Hl'
+                 ltac:(pose proof (Zle_0_nat (length (spell_tok t))); unfold zlen in *; lia) Hf') as [out [Hout Hsame]].
     exists (tok :: out). split.
     + rewrite Hout. cbn [rev]. rewrite <- !app_assoc. cbn [app].
-      replace (p' + 1 + zlen (text_of l)) with (p + zlen (spell_tok t ++ 32%N :: text_of l)); [reflexivity|].
-      subst p'. unfold zlen. rewrite app_length. cbn [length]. lia.
-    + constructor; [split; assumption | exact Hsame].
+      replace (p' + zlen (c :: ws') + zlen (text_ws l)) with (p + zlen (spell_tok t ++ (c :: ws') ++ text_ws l)); [reflexivity|].
+      subst p'. unfold zlen. rewrite !app_length. lia.
+    + cbn [map fst]. constructor; [split; assumption | exact Hsame].
 Qed.
 
-
-Lemma text_len l : Forall (fun t => lexable t = true) l -> (2 * length l <= length (text_of l))%nat.
+Lemma steps_len l : Forall (fun tw : token * bytes => lexable (fst tw) = true /\ ws_ok (snd tw)) l ->
+  (steps l <= length (text_ws l))%nat.
 Proof.
-  induction 1 as [|t l Ht Hl IH]; [cbn; lia|]. rewrite text_of_cons, app_length. cbn [length].
+  induction 1 as [|[t w] l [Ht _] Hl IH]; [cbn; lia|]. rewrite text_ws_cons, !app_length. cbn [steps fold_right fst snd] in *. fold (steps l).
   pose proof (spell_tok_nonempty t Ht) as Hn. destruct (spell_tok t); [congruence|]. cbn [length]. lia.
 Qed.
+
+(* the canonical text: one space after every token *)
+Definition spaced (l : list token) : list (token * bytes) := map (fun t => (t, [32%N])) l.
+Definition text_of (l : list token) : bytes := text_ws (spaced l).
+
+Lemma spaced_ok l : Forall (fun t => lexable t = true) l ->
+  Forall (fun tw : token * bytes => lexable (fst tw) = true /\ ws_ok (snd tw)) (spaced l).
+Proof.
+  induction 1 as [|t l Ht Hl IH]; constructor; [|exact IH]. cbn [fst snd]. split; [exact Ht|].
+  split; [discriminate | constructor; [left; reflexivity | constructor]].
+Qed.
+
+Lemma map_fst_spaced l : map fst (spaced l) = l.
+Proof. unfold spaced. rewrite map_map. cbn [fst]. apply map_id. Qed.
 
 Lemma Forall2_nth {A B} (R : A -> B -> Prop) a b : Forall2 R a b ->
   forall k t, nth_error b k = Some t -> exists t', nth_error a k = Some t' /\ R t' t.
@@ -411,26 +463,65 @@ Hypothesis lit_ok : forall v, is_json v = true -> json_unmarshal (lit_text v) = 
 
 Definition expr_text (e : expr) : bytes := text_of (render lit_text e).
 
+Definition ws_text_ok (l : list (token * bytes)) : Prop :=
+  Forall (fun tw : token * bytes => lexable (fst tw) = true /\ ws_ok (snd tw)) l.
+
+(* the lexer on a text whose tokens are each followed by some whitespace: exactly
+   those tokens (types and values), whatever the whitespace *)
+Theorem tokenize_text_ws l : ws_text_ok l ->
+  exists out, tokenize (text_ws l) = Ok (out ++ [Token tEOF [] (zlen (text_ws l)) 0]) /\ Forall2 same_tv out (map fst l).
+Proof.
+  intros Hl. rewrite tokenize_view. unfold tokenizeS.
+  destruct (lex_text_ws l (S (S (length (text_ws l)))) 0 0 [] Hl ltac:(lia) ltac:(pose proof (steps_len l Hl); lia)) as [out [Ho Hs]].
+  exists out. rewrite Ho. cbn [rev app]. rewrite Z.add_0_l. split; [reflexivity | exact Hs].
+Qed.
+
 Theorem tokenize_text l : Forall (fun t => lexable t = true) l ->
   exists out, tokenize (text_of l) = Ok (out ++ [Token tEOF [] (zlen (text_of l)) 0]) /\ Forall2 same_tv out l.
 Proof.
-  intros Hl. rewrite tokenize_view. unfold tokenizeS.
-  destruct (lex_text l (S (S (length (text_of l)))) 0 0 [] Hl ltac:(lia) ltac:(pose proof (text_len l Hl); lia)) as [out [Ho Hs]].
-  exists out. rewrite Ho. cbn [rev app]. rewrite Z.add_0_l. split; [reflexivity | exact Hs].
+  intros Hl. destruct (tokenize_text_ws (spaced l) (spaced_ok l Hl)) as [out [Ho Hs]]. rewrite map_fst_spaced in Hs.
+  exists out. split; assumption.
 Qed.
+
+(* Compile on any whitespace-separated spelling of the tokens of a well-precedenced tree *)
+Theorem compile_text_ws e l : wp e = true -> npos e = true -> ws_text_ok l -> map fst l = render lit_text e ->
+  Api.compile (text_ws l) = Ok (Grammar.compile e).
+Proof.
+  intros Hw Hnp Hl Hr. unfold Api.compile, parse.
+  destruct (tokenize_text_ws _ Hl) as [out [Ho Hs]]. rewrite Ho. cbn [bind]. rewrite Hr in Hs.
+  apply (parse_tokens_complete lit_text lit_ok e _ Hw Hnp).
+  - apply noeof_eof_wf; [|reflexivity]. exact (same_tv_noeof _ _ Hs (render_noeof lit_text e)).
+  - intros k t Hk. rewrite Nat.add_0_l.
+    assert (H2 : Forall2 same_tv (out ++ [Token tEOF [] (zlen (text_ws l)) 0]) (render lit_text e ++ [tk tEOF []])).
+    { apply Forall2_app; [exact Hs|]. constructor; [split; reflexivity | constructor]. }
+    destruct (Forall2_nth _ _ _ H2 k t Hk) as [t' [Hk' [T1 T2]]]. exists t'. split; [exact Hk'|]. split; [exact T1|].
+    rewrite T2. destruct (ttype t); cbn; auto.
+Qed.
+
+(* whitespace between tokens is insignificant: two texts with the same tokens and
+   any whitespace (space, tab, line feed, carriage return; at least one character)
+   after each of them are read as the same tokens, and Compile gives the same AST *)
+Theorem whitespace_insignificant_tokens l1 l2 : ws_text_ok l1 -> ws_text_ok l2 -> map fst l1 = map fst l2 ->
+  exists o1 o2 e1 e2, tokenize (text_ws l1) = Ok (o1 ++ [e1]) /\ tokenize (text_ws l2) = Ok (o2 ++ [e2]) /\
+    ttype e1 = tEOF /\ ttype e2 = tEOF /\
+    Forall2 (fun a b => ttype a = ttype b /\ tvalue a = tvalue b) o1 o2.
+Proof.
+  intros H1 H2 Hm. destruct (tokenize_text_ws l1 H1) as [o1 [T1 S1]]. destruct (tokenize_text_ws l2 H2) as [o2 [T2 S2]].
+  eexists o1, o2, _, _. split; [exact T1|]. split; [exact T2|]. split; [reflexivity|]. split; [reflexivity|].
+  rewrite <- Hm in S2. clear - S1 S2. revert o2 S2. induction S1 as [|a t o1 l [Ha1 Ha2] _ IH]; intros o2 S2; inversion S2 as [|b ? o2' ? [Hb1 Hb2] S2']; subst; constructor.
+  - split; congruence.
+  - apply IH. exact S2'.
+Qed.
+
+Theorem whitespace_insignificant e l1 l2 : wp e = true -> npos e = true -> ws_text_ok l1 -> ws_text_ok l2 ->
+  map fst l1 = render lit_text e -> map fst l2 = render lit_text e ->
+  Api.compile (text_ws l1) = Api.compile (text_ws l2).
+Proof. intros Hw Hnp H1 H2 R1 R2. rewrite (compile_text_ws e l1), (compile_text_ws e l2); auto. Qed.
 
 Theorem compile_text e : wp e = true -> npos e = true -> Forall (fun t => lexable t = true) (render lit_text e) ->
   Api.compile (expr_text e) = Ok (Grammar.compile e).
 Proof.
-  intros Hw Hnp Hl. unfold Api.compile, parse, expr_text.
-  destruct (tokenize_text _ Hl) as [out [Ho Hs]]. rewrite Ho. cbn [bind].
-  apply (parse_tokens_complete lit_text lit_ok e _ Hw Hnp).
-  - apply noeof_eof_wf; [|reflexivity]. exact (same_tv_noeof _ _ Hs (render_noeof lit_text e)).
-  - intros k t Hk. rewrite Nat.add_0_l.
-    assert (H2 : Forall2 same_tv (out ++ [Token tEOF [] (zlen (text_of (render lit_text e))) 0]) (render lit_text e ++ [tk tEOF []])).
-    { apply Forall2_app; [exact Hs|]. constructor; [split; reflexivity | constructor]. }
-    destruct (Forall2_nth _ _ _ H2 k t Hk) as [t' [Hk' [T1 T2]]]. exists t'. split; [exact Hk'|]. split; [exact T1|].
-    rewrite T2. destruct (ttype t); cbn; auto.
+  intros Hw Hnp Hl. unfold expr_text, text_of. apply compile_text_ws; [exact Hw | exact Hnp | apply spaced_ok; exact Hl | apply map_fst_spaced].
 Qed.
 
 (* every well-precedenced tree has a text — its tokens, each followed by a space —
